@@ -57,9 +57,11 @@ def _case(draw, allow_requeue=True):
     has_err = d.chance(60)
     services = {}
     if skind == "machine":
+        r_ = d.int(0, 99)
         child_root = {"key": "kid", "kind": "compound", "initial": "w", "children": [
-            {"key": "w", "kind": "atomic", "after": [[ms, [{"target": ["fin"], "actions": []}]]]} if d.chance(70) else
-            {"key": "w", "kind": "atomic", "always": [{"target": ["fin"], "actions": [], "guard": {"k": "const", "val": True}}]},
+            {"key": "w", "kind": "atomic", "after": [[ms, [{"target": ["fin"], "actions": []}]]]} if r_ < 55 else
+            {"key": "w", "kind": "atomic", "always": [{"target": ["fin"], "actions": [], "guard": {"k": "const", "val": True}}]} if r_ < 75 else
+            {"key": "w", "kind": "atomic"},   # a child that never finishes: only exit / stop ends it
             {"key": "fin", "kind": "final"}]}
         child = {"id": "kid", "root": child_root, "context": {"c": 7}, "maxIterations": 30, "tables": {}, "services": {}}
         finalize(child)
@@ -128,7 +130,19 @@ def _case(draw, allow_requeue=True):
     if start_in == "x":
         send("BACK")
     for _ in range(d.int(1, 4)):
-        shape = d.pick(["leave-in-flight", "reenter-in-flight", "complete", "slow-overlap", "noise", "requeue", "stop"])
+        shape = d.pick(["leave-in-flight", "reenter-in-flight", "complete", "slow-overlap", "noise", "requeue", "stop", "quick-reenter"])
+        if shape == "quick-reenter":
+            # leave and come back at once (no time, or 1 ms, in between), then let time pass: whatever
+            # belonged to the first activation must not take the second one's service down with it
+            send("GO")
+            if d.chance(50):
+                hist.append(["advance", 1])
+            send("BACK")
+            hist.append(["advance", d.pick([5, 15, 30])])
+            if d.chance(60):
+                send("GO")
+                hist.append(["advance", d.pick([15, 30])])
+            continue
         if shape == "leave-in-flight":
             hist.append(["advance", d.pick([1, ms // 2, ms - 1])])
             send("GO")
